@@ -664,8 +664,18 @@ def SUMPRODUCT(
             raise xlerrors.NaExcelError(
                 "Excel Errors are present in the sumproduct items.")
 
-    sumproduct = pd.concat(arrays, axis=1)
-    return sumproduct.prod(axis=1).sum()
+    # Multiply the arrays element by element (text and blanks count as 0)
+    # and add up the products. (Concatenating the arrays side by side and
+    # multiplying along the rows multiplied all columns of a row together.)
+    to_number = func_xltypes._safe_cast(
+        func_xltypes.Number.cast, func_xltypes.Number(0))
+    total = 0
+    for items in zip(*[xl.flatten(array) for array in arrays]):
+        product = to_number(items[0])
+        for item in items[1:]:
+            product = product * to_number(item)
+        total = total + product
+    return total
 
 
 @xl.register()
